@@ -177,19 +177,48 @@ def truth_table(paths, labeller):
         return ev(e[1], env) == ev(e[2], env)
 
     rows = []
+    exclusive = {}
     for conds, r in paths:
         if r[0] == "bad-end":
             return None, "a path of the predicate does not return (%s)" % (r[1],)
         cs = []
         for c, o in conds:
             if not isinstance(o, bool):
+                # `match x.gc() { Gc::Pc | Gc::Mn => .., _ => .. }`: a branch on the variant of a field-less enum value is the
+                # conjunction of the atoms `x.gc() == V` it stands for (atoms about one subject exclude each other)
+                if c[0] == "discr" and len(c) > 2 and c[2]:
+                    nm_ = dict((dv, n) for n, dv in c[2])
+                    sl = val_label(c[1], labeller)
+
+                    def lab_of(dv):
+                        a_, b_ = sorted(["%s()" % nm_[dv], sl])
+                        lab_ = "%s Eq %s" % (a_, b_)
+                        if lab_ not in atoms:
+                            atoms.append(lab_)
+                        exclusive.setdefault(sl, set()).add(lab_)
+                        return ("a", lab_)
+                    if isinstance(o, int) and o in nm_:
+                        cs.append((lab_of(o), True))
+                        continue
+                    if isinstance(o, tuple) and len(o) == 2 and o[0] == "otherwise" and all(dv in nm_ for dv in o[1]):
+                        for dv in o[1]:
+                            cs.append((lab_of(dv), False))
+                        continue
                 return None, "non-boolean branch %s" % S.vstr(c)
             cs.append((expr(c), o))
         rows.append((cs, expr(r)))
     atoms_sorted = sorted(atoms)
+    # an `==` test written out on the same subject belongs to the same group of mutually exclusive atoms
+    for sl, labs in exclusive.items():
+        for a_ in atoms_sorted:
+            m_ = re.match(r"^(\w+\(\)) Eq (.*)$", a_)
+            if m_ and sl in (m_.group(2), m_.group(1)):
+                labs.add(a_)
     table = {}
     for vals in itertools.product([False, True], repeat=len(atoms_sorted)):
         env = dict(zip(atoms_sorted, vals))
+        if any(sum(1 for a_ in labs if env.get(a_)) > 1 for labs in exclusive.values()):
+            continue        # the value cannot be two variants at once
         res = None
         for cs, rr in rows:
             if all(ev(e, env) == want for e, want in cs):
